@@ -34,11 +34,47 @@
         model's `merkleTree` (`C12_model_merkle_leaves_any_order`, `_level_any_order`, `_tree_any_order`).
     Order independence is at ITERATION granularity (any assignment of iterations to members, any order); interleavings of
     individual accesses follow from the disjointness of the footprints, as before.
-  What is NOT a theorem: that the COMPILED loop bodies access exactly these footprints.  The link is now: compiled code
-  ≈ model (differential campaigns, sequential) and model loop bodies ⊨ footprints (theorems above); the compiled accesses
-  themselves are OBSERVED by the C12 check: ThreadSanitizer over a pthread stand-in for the OpenMP runtime
-  (real accesses, real happens-before), controlled sequential execution of the team members in permuted orders and team
-  sizes (outputs bit-identical to the single-member run), and real libgomp teams of 1,2,3,5,16 threads.
+  * THE GENERATED LOOP BODIES (`C12_generated_…`, last part of the file).  The NTT source (Gen/NttGen.lean, heap mode) and
+    the Merkle builders (Gen/MerkleGen.lean) are TRANSLATED from the C++ on every run; an `omp parallel for` loop becomes
+    `Loop.rangeM 0 n 1 s body`, `body` = the lifted loop body `<fn>_loopK`.  `ParGen.inOrder body l s` (Lemmas/ParGen.lean)
+    runs that same body over the index list `l`; `ParGen.rangeM_eq_inOrder`: the generated loop is `inOrder body (range n)`.
+    Proved, each in the form  `l.Perm (range n) → inOrder body l s = Loop.rangeM 0 n 1 s body  ∧  the loop returns`,
+    for EVERY state `s` (heap / tree buffer) the loop is entered with:
+      - NTT_iters butterfly batches `NTT_NTT_iters_loop9` (`C12_generated_batches_any_order`, `_value`), through the
+        per-iteration bridge `passBatch_gen` + `C12_model_batches_any_order`; parameters as the generated pass loop passes
+        them (`BridgeNtt.pass_step`), N = 2^K ≤ 2^30 rows, object tables represented in the heap;
+        `C12_generated_pass_any_order`: one iteration of the generated pass loop `NTT_NTT_iters_loop10` (schedule arithmetic,
+        batch loop, pointer swap) continues with the heap that the batch body, with the arguments the pass computes, run
+        over ANY permutation of the batches returns;
+      - block scatter `NTT_NTT_loop1` (`C12_generated_scatter_any_order`; per-iteration bridge new, the scatter loop is not
+        bridged elsewhere), the four `reversePermutation` loops `NTT_reversePermutation_loop1…4`
+        (`C12_generated_reversal_out/_out_ext/_inplace/_inplace_ext_any_order`; the in-place ones allocate and free their
+        temporary row block inside the iteration), size = 2^k, k ≤ 32, index products below 2^64;
+        `C12_generated_reversePermutation_any_order`: the translated FUNCTION `NTT_reversePermutation` (when its assert holds)
+        returns what its own loop body — the loop and the arguments it selects, `revLoopBody` — run over ANY permutation
+        of the rows returns;
+      - `parcpy` (`C12_generated_parcpy_any_order`): the chunk loop is a `Loop.whileM` on `(heap, i)`; the lifted body run for
+        the chunk starting at `i` (`ParGen.chunkBody`) over any permutation of `ParCopy.starts` = the generated `parcpy`
+        (which `ParGen.parcpy_seq` shows to visit exactly these starts); uses `C12_parcpy_chunks`; parSetZero is not translated;
+      - Merkle: leaf loops and level loops of all six translated builders (`C12_generated_merkletree_*`), by frame +
+        dependency of the generated bodies on the ONE tree `Region` (Lemmas/ParGenMerkle.lean) and `C12_merkle_leaves` /
+        `C12_merkle_level`; the hypotheses on the hashes are discharged by the bridge (`C12_linear_hash_*`, `hash_*_node`).
+        No shape hypothesis for the leaf loops of seq / avx / avx512; `merkletree_batch_avx512` leaf loop for 2^(k+1) rows.
+    So the order theorems are re-checked against what the loop bodies say NOW: a change of a loop body changes Gen/*.lean and
+    breaks the per-iteration lemma of that loop (Lemmas/BridgeNtt*.lean, ParGen*.lean) or the `rfl` instance.
+    Granularity: one loop at a time, from an arbitrary state (hence every dynamic instance of the loop inside the translated
+    function, when the side conditions hold there); no order-parametrised copy of the generated functions is made (it
+    would not be regenerated): whole calls with every loop permuted are `C12_model_ntt_any_order` etc. for the hand model,
+    to which the bridge (`NTT_gen`, `nttIters_gen`) ties the translated functions.
+  What is NOT a theorem: (a) that the COMPILED code is the translated code (translator + clang AST are trusted for that; tied
+  by the differential campaigns of C03/C04/C05/C08/C19, which execute the generated model against the binary); (b) freedom
+  from data races at ACCESS granularity for the generated bodies: the translated bodies are functions on the memory state,
+  so the theorems are about results at iteration granularity (a read whose value never influences the result is invisible
+  to them); the explicit read/write footprints are proved for the hand model's bodies and, for Merkle / parcpy, for the
+  generated ones (frame + dependency), and interleavings follow from their disjointness.
+  The compiled accesses themselves are therefore still OBSERVED by the C12 check: ThreadSanitizer over a pthread stand-in for the
+  OpenMP runtime (real accesses, real happens-before), controlled sequential execution of the team members in permuted
+  orders and team sizes (outputs bit-identical to the single-member run), and real libgomp teams of 1,2,3,5,16 threads.
 -/
 import GoldilocksVerif.Lemmas.Bernstein
 import GoldilocksVerif.Lemmas.NttBr
@@ -48,6 +84,13 @@ import GoldilocksVerif.Lemmas.NttParRev
 import GoldilocksVerif.Lemmas.NttParIters
 import GoldilocksVerif.Lemmas.NttTop
 import GoldilocksVerif.Lemmas.MerklePar
+import GoldilocksVerif.Lemmas.BridgeNttIters
+import GoldilocksVerif.Lemmas.ParGenNtt
+import GoldilocksVerif.Lemmas.ParGenCopy
+import GoldilocksVerif.Lemmas.ParGenMerkle
+import GoldilocksVerif.Lemmas.BridgePerm
+import GoldilocksVerif.Lemmas.BridgeMerkleAvx
+import GoldilocksVerif.Lemmas.BridgeMerkle512
 
 namespace GoldilocksVerif.C12
 open GoldilocksVerif GoldilocksVerif.Par
@@ -669,5 +712,605 @@ example (o : Model.Ntt.Obj) (st : Model.Ntt.Buf × Model.Ntt.Buf) :
     [3, 1, 0, 2].foldl (fun st b => Model.Ntt.passBatch o 16 4 3 1 2 false false b st) st
       = (List.range (16 / 2 ^ 2)).foldl (fun st b => Model.Ntt.passBatch o 16 4 3 1 2 false false b st) st :=
   C12_model_batches_any_order o 16 4 3 1 2 false false st [3, 1, 0, 2] (by decide)
+
+/-! ## The GENERATED loop bodies (Gen/NttGen.lean, Gen/MerkleGen.lean: translated from the source on every run)
+
+  The translator renders an `omp parallel for` loop as `Loop.rangeM 0 n 1 s (body …)`, `body …` being the lifted loop body
+  (`<function>_loopK`, `Option`-valued).  `ParGen.inOrder body l s` (Lemmas/ParGen.lean) runs that SAME body over the index
+  list `l` in the order of `l`; `ParGen.rangeM_eq_inOrder` shows, without hypothesis, that the generated loop is
+  `inOrder body (List.range n)`.  Each theorem below states: for every permutation `l` of the iteration indices,
+  `inOrder body l s = Loop.rangeM 0 n 1 s body` — the generated body folded in any order gives what the translated function
+  computes (both sides `none` is excluded by the `_value` / bridge statements: under the hypotheses the loops return). -/
+
+section Generated
+open GoldilocksVerif.ParGen GoldilocksVerif.BridgeNtt Gen.NttGen
+
+/-! ### NTT_iters: the butterfly-batch loop (the loop over `b`, body `NTT_NTT_iters_loop9`) -/
+
+/-- **generated batches in any order.**  The parameters of the body are those the generated pass loop
+    (`NTT_NTT_iters_loop10`, see `BridgeNtt.pass_step`) passes for the pass starting at stage `S` of width `sInc` on
+    `N = 2^K` rows of `NC` columns; `a`, `a2` are two distinct blocks that are not the object's tables; `hp` is ANY heap
+    representing the object.  Proof: per-iteration bridge `passBatch_gen` (generated body = the model's `passBatch` on the
+    two blocks) + `C12_model_batches_any_order` (footprints of `passBatch`, Bernstein's conditions `C12_ntt_batches`). -/
+theorem C12_generated_batches_any_order (hp : Heap) (A A2 : Nat) (hne : A ≠ A2) (hA : A < hp.size) (hA2 : A2 < hp.size)
+    (self : NTT_Goldilocks) (o : Model.Ntt.Obj) (hrep : ObjRep hp self o) (hfr : ObjFrame self A) (hfr2 : ObjFrame self A2)
+    (N NC K MBP S sInc : Nat) (inverse extend : Bool)
+    (hK : K ≤ 30) (hN : N = 2 ^ K) (hS1 : 1 ≤ S) (hSleK : S ≤ K) (hSK : S + sInc ≤ K + 1) (hKs : K ≤ o.s) (hos : o.s ≤ 32)
+    (hNNC : N * NC < 2 ^ 64) (hNC8 : NC * 8 < 2 ^ 64) (hMBP : MBP < 2 ^ 63) (hcache : extend = true → o.rcache ≠ none)
+    (bs' : List Nat) (hp' : bs'.Perm (List.range (N / 2 ^ sInc))) :
+    inOrder (NTT_NTT_iters_loop9 (bv N) (bv NC) inverse extend self ⟨A, 0⟩ ⟨A2, 0⟩ (bv K) (bv MBP) (bv S) (bv sInc)
+        (bv (S - 1)) (bv (K - 1)) (bv (2 ^ (S - 1))) (bv (2 ^ (K - S) - 1)) (bv (2 ^ sInc)) (bv (N / 2 ^ sInc))) bs' hp
+      = Loop.rangeM 0 (bv (N / 2 ^ sInc)).toNat 1 hp
+          (NTT_NTT_iters_loop9 (bv N) (bv NC) inverse extend self ⟨A, 0⟩ ⟨A2, 0⟩ (bv K) (bv MBP) (bv S) (bv sInc)
+            (bv (S - 1)) (bv (K - 1)) (bv (2 ^ (S - 1))) (bv (2 ^ (K - S) - 1)) (bv (2 ^ sInc)) (bv (N / 2 ^ sInc))) := by
+  have hN30 : N ≤ 2 ^ 30 := by rw [hN]; exact Nat.pow_le_pow_right (by omega) hK
+  have hnb : (bv (N / 2 ^ sInc)).toNat = N / 2 ^ sInc :=
+    bv_toNat _ (Nat.lt_of_le_of_lt (Nat.div_le_self _ _) (by omega))
+  rw [hnb]
+  have key := inOrder_any_order (Heap.R2 hp A A2)
+    (Model.Ntt.passBatch o N K NC S sInc (!(decide (S + MBP ≤ K) || !inverse)) extend) _ (N / 2 ^ sInc)
+    (fun b hb s => passBatch_gen hp A A2 hne hA hA2 self o hrep hfr hfr2 N NC K MBP S sInc (N / 2 ^ sInc) b inverse extend
+      hK hN hS1 hSleK hSK hKs hos rfl hb hNNC hNC8 hMBP hcache s)
+    (fun l hl st => C12_model_batches_any_order o N K NC S sInc _ extend st l hl) bs' hp' (hp.block A, hp.block A2)
+  rw [R2_self] at key
+  exact key.1
+
+/-- … and the common result: the heap with the two blocks replaced by the model's `passBatch` folded over the batches
+    (in particular the generated batch loop returns, in every order) -/
+theorem C12_generated_batches_value (hp : Heap) (A A2 : Nat) (hne : A ≠ A2) (hA : A < hp.size) (hA2 : A2 < hp.size)
+    (self : NTT_Goldilocks) (o : Model.Ntt.Obj) (hrep : ObjRep hp self o) (hfr : ObjFrame self A) (hfr2 : ObjFrame self A2)
+    (N NC K MBP S sInc : Nat) (inverse extend : Bool)
+    (hK : K ≤ 30) (hN : N = 2 ^ K) (hS1 : 1 ≤ S) (hSleK : S ≤ K) (hSK : S + sInc ≤ K + 1) (hKs : K ≤ o.s) (hos : o.s ≤ 32)
+    (hNNC : N * NC < 2 ^ 64) (hNC8 : NC * 8 < 2 ^ 64) (hMBP : MBP < 2 ^ 63) (hcache : extend = true → o.rcache ≠ none)
+    (bs' : List Nat) (hp' : bs'.Perm (List.range (N / 2 ^ sInc))) :
+    inOrder (NTT_NTT_iters_loop9 (bv N) (bv NC) inverse extend self ⟨A, 0⟩ ⟨A2, 0⟩ (bv K) (bv MBP) (bv S) (bv sInc)
+        (bv (S - 1)) (bv (K - 1)) (bv (2 ^ (S - 1))) (bv (2 ^ (K - S) - 1)) (bv (2 ^ sInc)) (bv (N / 2 ^ sInc))) bs' hp
+      = some (Heap.R2 hp A A2 ((List.range (N / 2 ^ sInc)).foldl
+          (fun st b => Model.Ntt.passBatch o N K NC S sInc (!(decide (S + MBP ≤ K) || !inverse)) extend b st)
+          (hp.block A, hp.block A2))) := by
+  have key := inOrder_rep (Heap.R2 hp A A2)
+    (Model.Ntt.passBatch o N K NC S sInc (!(decide (S + MBP ≤ K) || !inverse)) extend) _ bs'
+    (fun b hb s => passBatch_gen hp A A2 hne hA hA2 self o hrep hfr hfr2 N NC K MBP S sInc (N / 2 ^ sInc) b inverse extend
+      hK hN hS1 hSleK hSK hKs hos rfl (List.mem_range.1 ((hp'.mem_iff).1 hb)) hNNC hNC8 hMBP hcache s)
+    (hp.block A, hp.block A2)
+  rw [R2_self, C12_model_batches_any_order o N K NC S sInc _ extend _ bs' hp'] at key
+  exact key
+
+/-- **one iteration of the generated pass loop, batches in any order.**  From ANY heap `hp` representing the object, with
+    `a`, `a2` two distinct blocks outside the object's tables, the lifted body of `for (s = 1; s <= domainPow; …)`
+    (`NTT_NTT_iters_loop10`: schedule arithmetic, batch loop, pointer swap) continues with a heap `hp'` — and `hp'` is what
+    running the lifted batch body `NTT_NTT_iters_loop9`, with the arguments the pass computes (`mbp'`, `sInc`, masks, batch
+    size and count below), over ANY permutation of the batch indices returns.  (`pass_step` + `C12_generated_batches_value`.) -/
+theorem C12_generated_pass_any_order (hp : Heap) (A A2 : Nat) (hne : A ≠ A2) (hA : A < hp.size) (hA2 : A2 < hp.size)
+    (self : NTT_Goldilocks) (o : Model.Ntt.Obj) (hrep : ObjRep hp self o) (hfr : ObjFrame self A) (hfr2 : ObjFrame self A2)
+    (N NC K res : Nat) (inverse extend : Bool) (hK : K ≤ 30) (hN : N = 2 ^ K) (hKs : K ≤ o.s) (hos : o.s ≤ 32)
+    (hNNC : N * NC < 2 ^ 64) (hNC8 : NC * 8 < 2 ^ 64) (hcache : extend = true → o.rcache ≠ none)
+    (mbp s count : Nat) (hs1 : 1 ≤ s) (hsK : s ≤ K) (hm1 : 1 ≤ mbp) (hm : mbp ≤ 64) (hres : res ≤ 64) (hcount : count ≤ 128)
+    (tmp : Ptr) (bs' : List Nat)
+    (hp' : bs'.Perm (List.range (N / 2 ^ stepInc K s (stepMbp res count mbp)))) :
+    ∃ hq, NTT_NTT_iters_loop10 (bv N) (bv NC) inverse extend self (bv K) (bv res)
+        (bv mbp, hp, tmp, ⟨A2, 0⟩, ⟨A, 0⟩, bv s, bv count) =
+      some (true, (bv (stepMbp res count mbp), hq, ⟨A2, 0⟩, ⟨A, 0⟩, ⟨A2, 0⟩, bv (s + stepMbp res count mbp), bv (count + 1))) ∧
+    inOrder (NTT_NTT_iters_loop9 (bv N) (bv NC) inverse extend self ⟨A, 0⟩ ⟨A2, 0⟩ (bv K) (bv (stepMbp res count mbp)) (bv s)
+        (bv (stepInc K s (stepMbp res count mbp))) (bv (s - 1)) (bv (K - 1)) (bv (2 ^ (s - 1))) (bv (2 ^ (K - s) - 1))
+        (bv (2 ^ stepInc K s (stepMbp res count mbp))) (bv (N / 2 ^ stepInc K s (stepMbp res count mbp)))) bs' hp = some hq := by
+  have hmb : 1 ≤ stepMbp res count mbp ∧ stepMbp res count mbp ≤ 64 := by
+    unfold stepMbp
+    by_cases h : res > 0 ∧ count = res + 1 ∧ mbp > 1
+    · rw [if_pos h]; omega
+    · rw [if_neg h]; omega
+  have hstep := pass_step hp self o hrep N NC K res inverse extend hK hN hKs hos hNNC hNC8 hcache A A2 hne hA hA2 hfr hfr2
+    mbp s count hs1 hsK hm1 hm hres hcount tmp (hp.block A, hp.block A2)
+  rw [R2_self] at hstep
+  generalize stepMbp res count mbp = mbp' at hstep hp' hmb ⊢
+  have hsi : s + stepInc K s mbp' ≤ K + 1 := by
+    unfold stepInc
+    by_cases h : s + mbp' ≤ K
+    · rw [if_pos h]; omega
+    · rw [if_neg h]; omega
+  have hval := C12_generated_batches_value hp A A2 hne hA hA2 self o hrep hfr hfr2 N NC K mbp' s (stepInc K s mbp') inverse
+    extend hK hN hs1 hsK hsi hKs hos hNNC hNC8 (by omega) hcache bs' hp'
+  refine ⟨_, hstep, ?_⟩
+  rw [hval, iter_eq_foldl]
+
+/-! ### NTT: the block scatter loop (body `NTT_NTT_loop1`) -/
+
+/-- the rows of the generated scatter loop in any order.  `dst` = block `D`, `dst_` = block `T ≠ D` (allocated by `NTT`
+    itself when `nblock > 1`); `oc + aux ≤ ncols`: the column block lies inside a row (as in `C12_model_scatter_any_order`);
+    the index products do not wrap.  Per-iteration bridge `ParGen.scatter_rep` (new: this loop is not bridged elsewhere). -/
+theorem C12_generated_scatter_any_order (hp : Heap) (D T : Nat) (hD : D < hp.size) (hne : D ≠ T) (ncols oc aux : BitVec 64)
+    (size : Nat) (hfit : oc.toNat + aux.toNat ≤ ncols.toNat) (hb1 : size * ncols.toNat < 2 ^ 64)
+    (hb3 : aux.toNat * 8 < 2 ^ 64) (hsz : size < 2 ^ 64) (is' : List Nat) (hp' : is'.Perm (List.range size)) :
+    inOrder (NTT_NTT_loop1 ⟨D, 0⟩ ncols oc ⟨T, 0⟩ aux) is' hp
+      = Loop.rangeM 0 size 1 hp (NTT_NTT_loop1 ⟨D, 0⟩ ncols oc ⟨T, 0⟩ aux)
+    ∧ ∃ hp', Loop.rangeM 0 size 1 hp (NTT_NTT_loop1 ⟨D, 0⟩ ncols oc ⟨T, 0⟩ aux) = some hp' := by
+  have key := inOrder_any_order (hp.setBlock D)
+    (fun ie B => Model.Ntt.scatterBody ncols.toNat oc.toNat aux.toNat ie (hp.block T) B) _ size
+    (scatter_rep hp D T hD hne ncols oc aux size hfit hb1 hb3 hsz)
+    (fun l hl t => (C12_model_scatter_any_order t (hp.block T) size ncols.toNat oc.toNat aux.toNat hfit l hl).trans
+      (C12_model_scatter_any_order t (hp.block T) size ncols.toNat oc.toNat aux.toNat hfit _ (List.Perm.refl _)).symm)
+    is' hp' (hp.block D)
+  rw [Heap.setBlock_block] at key
+  exact key
+
+/-! ### reversePermutation: the four loops (bodies `NTT_reversePermutation_loop1 … loop4`) -/
+
+section rev
+variable (hp : Heap) (d s : Nat) (oc nc nca : BitVec 64) (ds : BitVec 32) (k size : Nat)
+variable (hk : k ≤ 32) (hds : ds.toNat = k) (hsz : size = 2 ^ k) (hd : d < hp.size)
+variable (hb1 : size * nca.toNat + oc.toNat < 2 ^ 64) (hb2 : size * nc.toNat < 2 ^ 64) (hb3 : nc.toNat * 8 < 2 ^ 64)
+
+theorem revOut_model_order (o : Model.Ntt.Obj) (src : Model.Ntt.Buf) (size oc nc nca : Nat) (l : List Nat)
+    (hl : l.Perm (List.range size)) (t : Model.Ntt.Buf) :
+    l.foldl (fun t i => Model.Ntt.revOutBody o size oc nc nca i src t) t
+      = (List.range size).foldl (fun t i => Model.Ntt.revOutBody o size oc nc nca i src t) t :=
+  Except.ok.inj ((C12_model_reversal_out_any_order o t src size oc nc nca l hl).symm.trans
+    (C12_model_reversal_out_any_order o t src size oc nc nca _ (List.Perm.refl _)))
+
+theorem revIn_model_order (o : Model.Ntt.Obj) (k nc : Nat) (hk : k ≤ 32) (l : List Nat)
+    (hl : l.Perm (List.range (2 ^ k))) (t : Model.Ntt.Buf) :
+    l.foldl (fun t i => Model.Ntt.revInBody o (2 ^ k) nc i t) t
+      = (List.range (2 ^ k)).foldl (fun t i => Model.Ntt.revInBody o (2 ^ k) nc i t) t :=
+  Except.ok.inj ((C12_model_reversal_inplace_any_order o t t k nc hk l hl).symm.trans
+    (C12_model_reversal_inplace_any_order o t t k nc hk _ (List.Perm.refl _)))
+
+include hk hds hsz hd hb1 hb2 hb3 in
+/-- out of place (`dst ≠ src`: blocks `d ≠ s`), `extension ≤ 1` (ntt_goldilocks.cpp:254): rows in any order.
+    `size = 2^k` rows, `k ≤ 32`, `ds` = `log2 size` as the function computes it; the index products do not wrap. -/
+theorem C12_generated_reversal_out_any_order (hne : d ≠ s) (is' : List Nat) (hp' : is'.Perm (List.range size)) :
+    inOrder (NTT_reversePermutation_loop1 ⟨d, 0⟩ ⟨s, 0⟩ oc nc nca ds) is' hp
+      = Loop.rangeM 0 size 1 hp (NTT_reversePermutation_loop1 ⟨d, 0⟩ ⟨s, 0⟩ oc nc nca ds)
+    ∧ ∃ hp', Loop.rangeM 0 size 1 hp (NTT_reversePermutation_loop1 ⟨d, 0⟩ ⟨s, 0⟩ oc nc nca ds) = some hp' := by
+  have key := inOrder_any_order (hp.setBlock d)
+    (fun i D => Model.Ntt.revOutBody (extObj 1) size oc.toNat nc.toNat nca.toNat i (hp.block s) D) _ size
+    (rev1_rep hp d s oc nc nca ds k size hk hds hsz hd hb1 hb2 hb3 hne)
+    (fun l hl t => revOut_model_order (extObj 1) (hp.block s) size oc.toNat nc.toNat nca.toNat l hl t)
+    is' hp' (hp.block d)
+  rw [Heap.setBlock_block] at key
+  exact key
+
+include hk hds hsz hd hb1 hb2 hb3 in
+/-- out of place, `extension = e > 1` (zero-extending, :267); `ext_` as the function computes it: `(size / e) · ncols_all` -/
+theorem C12_generated_reversal_out_ext_any_order (hne : d ≠ s) (ext_ : BitVec 64) (e : Nat) (he : ¬ e ≤ 1)
+    (hE : ext_.toNat = size / e * nca.toNat) (is' : List Nat) (hp' : is'.Perm (List.range size)) :
+    inOrder (NTT_reversePermutation_loop2 ⟨d, 0⟩ ⟨s, 0⟩ oc nc nca ds ext_) is' hp
+      = Loop.rangeM 0 size 1 hp (NTT_reversePermutation_loop2 ⟨d, 0⟩ ⟨s, 0⟩ oc nc nca ds ext_)
+    ∧ ∃ hp', Loop.rangeM 0 size 1 hp (NTT_reversePermutation_loop2 ⟨d, 0⟩ ⟨s, 0⟩ oc nc nca ds ext_) = some hp' := by
+  have key := inOrder_any_order (hp.setBlock d)
+    (fun i D => Model.Ntt.revOutBody (extObj e) size oc.toNat nc.toNat nca.toNat i (hp.block s) D) _ size
+    (rev2_rep hp d s oc nc nca ds k size hk hds hsz hd hb1 hb2 hb3 hne ext_ e he hE)
+    (fun l hl t => revOut_model_order (extObj e) (hp.block s) size oc.toNat nc.toNat nca.toNat l hl t)
+    is' hp' (hp.block d)
+  rw [Heap.setBlock_block] at key
+  exact key
+
+include hk hds hsz hd hb2 hb3 in
+/-- in place (`dst == src`: one block `d`), `extension ≤ 1` (:289): every iteration allocates its temporary row block,
+    swaps rows `i` and `BR(i)` when `BR(i) < i`, frees the block; iterations in any order -/
+theorem C12_generated_reversal_inplace_any_order (is' : List Nat) (hp' : is'.Perm (List.range size)) :
+    inOrder (NTT_reversePermutation_loop3 ⟨d, 0⟩ ⟨d, 0⟩ nc ds) is' hp
+      = Loop.rangeM 0 size 1 hp (NTT_reversePermutation_loop3 ⟨d, 0⟩ ⟨d, 0⟩ nc ds)
+    ∧ ∃ hp', Loop.rangeM 0 size 1 hp (NTT_reversePermutation_loop3 ⟨d, 0⟩ ⟨d, 0⟩ nc ds) = some hp' := by
+  have key := inOrder_any_order (hp.setBlock d)
+    (fun i D => Model.Ntt.revInBody (extObj 1) size nc.toNat i D) _ size
+    (rev3_rep hp d nc ds k size hk hds hsz hd hb2 hb3)
+    (fun l hl t => by subst hsz; exact revIn_model_order (extObj 1) k nc.toNat hk l hl t)
+    is' hp' (hp.block d)
+  rw [Heap.setBlock_block] at key
+  exact key
+
+include hk hds hsz hd hb2 hb3 in
+/-- in place, `extension = e > 1` (:311); `nIn` = `nrows_in` as the function computes it: `size / e` -/
+theorem C12_generated_reversal_inplace_ext_any_order (nIn : BitVec 64) (e : Nat) (he : ¬ e ≤ 1) (hN : nIn.toNat = size / e)
+    (is' : List Nat) (hp' : is'.Perm (List.range size)) :
+    inOrder (NTT_reversePermutation_loop4 ⟨d, 0⟩ ⟨d, 0⟩ nc ds nIn) is' hp
+      = Loop.rangeM 0 size 1 hp (NTT_reversePermutation_loop4 ⟨d, 0⟩ ⟨d, 0⟩ nc ds nIn)
+    ∧ ∃ hp', Loop.rangeM 0 size 1 hp (NTT_reversePermutation_loop4 ⟨d, 0⟩ ⟨d, 0⟩ nc ds nIn) = some hp' := by
+  have key := inOrder_any_order (hp.setBlock d)
+    (fun i D => Model.Ntt.revInBody (extObj e) size nc.toNat i D) _ size
+    (rev4_rep hp d nc ds k size hk hds hsz hd hb2 hb3 nIn e he hN)
+    (fun l hl t => by subst hsz; exact revIn_model_order (extObj e) k nc.toNat hk l hl t)
+    is' hp' (hp.block d)
+  rw [Heap.setBlock_block] at key
+  exact key
+
+end rev
+
+/-- the lifted loop body the translated `reversePermutation` runs, with the arguments it computes: which of the four loops is
+    selected by `dst == src` and `extension ≤ 1`; `domainSize = log2 size = k`, `ext_ = (size / extension) · ncols_all`,
+    `nrows_in = size / extension` -/
+def revLoopBody (self : NTT_Goldilocks) (d s : Nat) (size oc nc nca : BitVec 64) (k : Nat) : Nat → Heap → Option Heap :=
+  if d = s then
+    (if self.extension ≤ 1 then NTT_reversePermutation_loop3 ⟨d, 0⟩ ⟨s, 0⟩ nc (BitVec.ofNat 32 k)
+     else NTT_reversePermutation_loop4 ⟨d, 0⟩ ⟨s, 0⟩ nc (BitVec.ofNat 32 k) (size / (I32.toU64 self.extension)))
+  else
+    (if self.extension ≤ 1 then NTT_reversePermutation_loop1 ⟨d, 0⟩ ⟨s, 0⟩ oc nc nca (BitVec.ofNat 32 k)
+     else NTT_reversePermutation_loop2 ⟨d, 0⟩ ⟨s, 0⟩ oc nc nca (BitVec.ofNat 32 k) ((size / (I32.toU64 self.extension)) * nca))
+
+/-- **the translated `reversePermutation`, rows in any order**: whenever its `assert` holds (in place: one column block), the
+    function returns, and what it returns is its lifted loop body (`revLoopBody`: the loop and the arguments the function
+    selects) run over ANY permutation of the row indices.  size = 2^k, k ≤ 32, index products below 2^64, 0 ≤ extension < 2^31. -/
+theorem C12_generated_reversePermutation_any_order (fuel : Nat) (hf : log2Fuel ≤ fuel) (hp : Heap) (self : NTT_Goldilocks)
+    (e : Nat) (d s : Nat) (size oc nc nca : BitVec 64) (k : Nat) (hk : k ≤ 32) (hsize : size.toNat = 2 ^ k) (hd : d < hp.size)
+    (hext : self.extension = (e : Int)) (hext31 : e < 2 ^ 31)
+    (hb1 : size.toNat * nca.toNat + oc.toNat < 2 ^ 64) (hb2 : size.toNat * nc.toNat < 2 ^ 64) (hb3 : nc.toNat * 8 < 2 ^ 64)
+    (hassert : d = s → oc = 0#64 ∧ nc = nca) (is' : List Nat) (hp' : is'.Perm (List.range size.toNat)) :
+    NTT_reversePermutation fuel hp self ⟨d, 0⟩ ⟨s, 0⟩ size oc nc nca = inOrder (revLoopBody self d s size oc nc nca k) is' hp
+    ∧ ∃ hq, NTT_reversePermutation fuel hp self ⟨d, 0⟩ ⟨s, 0⟩ size oc nc nca = some hq := by
+  have hne0 : size ≠ 0#64 := by
+    intro h
+    have h1 := congrArg BitVec.toNat h
+    rw [hsize] at h1
+    have h2 : 0 < 2 ^ k := Nat.pow_pos (by omega)
+    have h3 : (0#64 : BitVec 64).toNat = 0 := rfl
+    omega
+  have hlogk : Model.Ntt.log2 size.toNat = k := by rw [hsize]; exact Nat.log2_two_pow
+  have hlog := log2_gen_eq fuel hf size hne0
+  rw [hlogk] at hlog
+  have hds : (BitVec.ofNat 32 k).toNat = k := by
+    rw [BitVec.toNat_ofNat]; exact Nat.mod_eq_of_lt (by omega)
+  have hextu : I32.toU64 self.extension = BitVec.ofNat 64 e := by
+    rw [hext]; simp only [I32.toU64, BitVec.ofInt_natCast]
+  have hextn : (BitVec.ofNat 64 e).toNat = e := ofNat_toNat_lt _ (by omega)
+  have hnin : (size / BitVec.ofNat 64 e).toNat = size.toNat / e := by rw [BitVec.toNat_udiv, hextn]
+  have hextd : self.extension ≤ 1 ↔ e ≤ 1 := by rw [hext]; omega
+  unfold NTT_reversePermutation revLoopBody
+  simp only [hlog, Option.bind_some, ptr_ne, bind_some_id, hextu]
+  by_cases hds' : d = s
+  · subst hds'
+    obtain ⟨rfl, rfl⟩ := hassert rfl
+    simp only [decide_true, Bool.not_true, Bool.false_eq_true, if_false, if_true, beq_self_eq_true, Bool.and_self]
+    by_cases he : e ≤ 1
+    · have he' : self.extension ≤ 1 := hextd.2 he
+      simp only [he', decide_true, if_true]
+      have key := C12_generated_reversal_inplace_any_order hp d nc (BitVec.ofNat 32 k) k size.toNat hk hds hsize hd hb2 hb3
+        is' hp'
+      exact ⟨key.1.symm, key.2⟩
+    · have he' : ¬ self.extension ≤ 1 := fun h => he (hextd.1 h)
+      simp only [he', decide_false, if_false, Bool.false_eq_true]
+      have key := C12_generated_reversal_inplace_ext_any_order hp d nc (BitVec.ofNat 32 k) k size.toNat hk hds hsize hd hb2 hb3
+        (size / BitVec.ofNat 64 e) e he hnin is' hp'
+      exact ⟨key.1.symm, key.2⟩
+  · simp only [hds', decide_false, Bool.not_false, if_true, if_false]
+    by_cases he : e ≤ 1
+    · have he' : self.extension ≤ 1 := hextd.2 he
+      simp only [he', decide_true, if_true]
+      have key := C12_generated_reversal_out_any_order hp d s oc nc nca (BitVec.ofNat 32 k) k size.toNat hk hds hsize hd hb1 hb2
+        hb3 hds' is' hp'
+      exact ⟨key.1.symm, key.2⟩
+    · have he' : ¬ self.extension ≤ 1 := fun h => he (hextd.1 h)
+      have hE : (size / BitVec.ofNat 64 e * nca).toNat = size.toNat / e * nca.toNat := by
+        have hle : size.toNat / e * nca.toNat ≤ size.toNat * nca.toNat :=
+          Nat.mul_le_mul_right _ (Nat.div_le_self _ _)
+        rw [BridgeNtt.mul_toNat _ _ (by rw [hnin]; omega), hnin]
+      simp only [he', decide_false, if_false, Bool.false_eq_true]
+      have key := C12_generated_reversal_out_ext_any_order hp d s oc nc nca (BitVec.ofNat 32 k) k size.toNat hk hds hsize hd hb1
+        hb2 hb3 hds' _ e he hE is' hp'
+      exact ⟨key.1.symm, key.2⟩
+
+/-! ### parcpy: the chunk loop (goldilocks_base_field.cpp:72; body `parcpy_loop1`, a `Loop.whileM` on `(heap, i)`) -/
+
+open GoldilocksVerif.ParCopy in
+/-- **generated parcpy, chunks in any order.**  `chunkBody … i` (Lemmas/ParGenCopy.lean) is the lifted body `parcpy_loop1` run
+    for the chunk that starts at `i`.  For every permutation `order` of the hand model's chunk starts
+    (`ParCopy.starts`, which `ParGen.parcpy_seq` shows to be the starts the generated loop visits), running the generated
+    body over `order` gives what the generated `parcpy` returns.  `dst`, `src` = distinct blocks; `size·8` bytes fit in 64
+    bits; any `int` thread count (zero and negative included); fuel > number of chunks.
+    Proof: per-chunk bridge `ParGen.chunk_rep` + `C12_parcpy_chunks` (Bernstein's conditions for the chunks). -/
+theorem C12_generated_parcpy_any_order (fuel : Nat) (hp : Heap) (D S : Nat) (hD : D < hp.size) (hne : D ≠ S)
+    (size : BitVec 64) (nt : Int) (hnt : nt < 2 ^ 31) (hs8 : size.toNat * 8 < 2 ^ 64)
+    (hfuel : (starts size.toNat nt).length < fuel) (order : List Nat) (hperm : order.Perm (starts size.toNat nt)) :
+    inOrder (chunkBody ⟨D, 0⟩ ⟨S, 0⟩ size (genChunk size nt)) order hp = parcpy fuel hp ⟨D, 0⟩ ⟨S, 0⟩ size nt
+    ∧ ∃ hp', parcpy fuel hp ⟨D, 0⟩ ⟨S, 0⟩ size nt = some hp' := by
+  have key := inOrder_rep (hp.setBlock D) (fun i B => cpyChunk size.toNat nt i (hp.block S) B)
+    (chunkBody ⟨D, 0⟩ ⟨S, 0⟩ size (genChunk size nt)) order
+    (fun i hi B => chunk_rep hp D S hD hne size nt hnt hs8 i ((hperm.mem_iff).1 hi) B) (hp.block D)
+  rw [Heap.setBlock_block] at key
+  have hord : order.foldl (fun B i => cpyChunk size.toNat nt i (hp.block S) B) (hp.block D)
+      = (starts size.toNat nt).foldl (fun B i => cpyChunk size.toNat nt i (hp.block S) B) (hp.block D) := by
+    refine writers_any_order (fun i => cpyChunk size.toNat nt i) _ _ (fun i => cpyChunk_writer size.toNat nt i) _ _ hperm ?_
+      (hp.block S) (hp.block D)
+    intro i hi i' hi' hne'
+    refine (C12_parcpy_chunks 1 0 size.toNat nt i i' (by decide) ((hperm.mem_iff).1 hi) ((hperm.mem_iff).1 hi') hne').congr
+      ?_ ?_ ?_ ?_
+    all_goals
+      rintro ⟨b, j⟩ ⟨hb, h1, h2⟩
+      exact ⟨hb, h1, h2⟩
+  rw [key, hord, parcpy_seq hp D S hD hne size nt hnt hs8 fuel hfuel]
+  exact ⟨rfl, _, rfl⟩
+
+/-! ### Merkle builders: leaf loops and level loops of the generated builders
+
+  The generated bodies work on ONE tree buffer (a `Region`).  `mtLeafG LH`, `mtbLeafG LH`, `mt512LeafG LH2 LH1`, `mtNodeG H`
+  (Lemmas/BridgeMerkle*.lean) are the generated text with the hash calls as parameters — the lifted bodies
+  `Pos_merkletree_*_loopK` are instances BY UNFOLDING (`rfl`), so a change of a loop body breaks its instance theorem below.
+  Frame and dependency of the bodies (Lemmas/ParGenMerkle.lean: `fillIter`, `nodeIter`) are derived from that text and from
+  what the bridge proves of the hashes (`LeafHash`, `PairHash`: the digest words are written, nothing else, and they do
+  not depend on the output buffer; `NodeHash`: 4 words, a function of the 12 input words); their footprints are, up to
+  presentation, those of `C12_merkle_leaves` / `C12_merkle_level`.  Unlike `C12_model_merkle_*` (a hand-written imperative
+  rendering), these are statements about the translated loop bodies themselves.
+  Covered: leaf + level loop of all six builders (`merkletree_seq`, `_avx`, `_avx512`, `_batch_seq`, `_batch_avx`,
+  `_batch_avx512`; the last one's leaf loop for an even number 2^(k+1) of rows only). -/
+
+section GenMerkle
+open Gen.MerkleGen
+
+/-- a counted loop that hands iteration `m` the buffer at `4k·m` and lets it write at most `4k` digest words there (the form
+    of every leaf loop, `fill_spec`): the iterations in any order give the generated loop's buffer -/
+theorem C12_generated_merkle_fill_any_order (k : Nat) (w : Nat → Nat) (f G : Nat → Region → Option Region)
+    (D : Nat → List Model.Wd) (N : Nat)
+    (hf : ∀ m, m < N → ∀ t, f m t = (G m (Region.shift t (4 * k * m))).bind fun r => some (Region.unshift t (4 * k * m) r))
+    (hG : ∀ m, m < N → DigestWriter (w m) (G m) (D m)) (hw : ∀ m, w m ≤ 4 * k) (tree : Region)
+    (is' : List Nat) (hp : is'.Perm (List.range N)) :
+    inOrder f is' tree = Loop.rangeM 0 N 1 tree f ∧ ∃ t', Loop.rangeM 0 N 1 tree f = some t' := by
+  refine inOrder_any_order id (fun m => (fillIter (4 * k) w f G D N hf hG m).run) _ N
+    (fun m hm t => (fill_step_spec (4 * k) w f G D N hf hG m hm t).1)
+    (fun l hl t => any_order (fillIter (4 * k) w f G D N hf hG) l _ hl ?_ t) is' hp tree
+  intro i _ i' _ hne
+  have e1 : ∀ i : Nat, i * (4 * k) = 4 * k * i := fun i => Nat.mul_comm _ _
+  have e2 : ∀ i : Nat, (i + 1) * (4 * k) = 4 * k * i + 4 * k := fun i => by rw [Nat.add_mul, Nat.one_mul, Nat.mul_comm]
+  refine (C12_merkle_leaves 0 1 k 0 i i' (by decide) hne).congr ?_ ?_ ?_ ?_
+  · rintro ⟨b, j⟩ ⟨_, h⟩; exact h.elim
+  · rintro ⟨b, j⟩ ⟨hb, _, h1, h2⟩
+    have := hw i
+    exact ⟨hb, by rw [e1]; exact h1, by rw [e2]; omega⟩
+  · rintro ⟨b, j⟩ ⟨_, h⟩; exact h.elim
+  · rintro ⟨b, j⟩ ⟨hb, _, h1, h2⟩
+    have := hw i'
+    exact ⟨hb, by rw [e1]; exact h1, by rw [e2]; omega⟩
+
+/-- leaf loop of `merkletree_seq` / `merkletree_avx`, generic in the linear hash: the rows in any order.
+    No hypothesis on shapes: the tree words are addressed by `4·i` (no 64-bit arithmetic), the input is another buffer. -/
+theorem C12_generated_merkle_leaves_any_order (LH : Nat → Region → Region → BitVec 64 → Option Region)
+    (leaf : List Model.Wd → List Model.Wd) (hLH : LeafHash LH leaf) (fuel : Nat) (input tree : Region)
+    (num_cols dim : BitVec 64) (hf : (num_cols * dim).toNat < fuel) (R : Nat)
+    (is' : List Nat) (hp : is'.Perm (List.range R)) :
+    inOrder (mtLeafG LH fuel input num_cols dim) is' tree = Loop.rangeM 0 R 1 tree (mtLeafG LH fuel input num_cols dim)
+    ∧ ∃ t', Loop.rangeM 0 R 1 tree (mtLeafG LH fuel input num_cols dim) = some t' :=
+  C12_generated_merkle_fill_any_order 1 (fun _ => 4) (mtLeafG LH fuel input num_cols dim) _ _ R
+    (fun m _ t => mtLeafG_fill LH fuel input num_cols dim m t)
+    (fun m _ => mtLeafG_writer LH leaf hLH fuel input num_cols dim hf m) (fun _ => Nat.le_refl _) tree is' hp
+
+/-- leaf loop of the batched builders, generic in the linear hash (`buff0` is private to the iteration).
+    Shape hypotheses as in the bridge (`mtb_leaves`): they make the inner loop over the column batches return. -/
+theorem C12_generated_merkle_batch_leaves_any_order (LH : Nat → Region → Region → BitVec 64 → Option Region)
+    (leaf : List Model.Wd → List Model.Wd) (hLH : LeafHash LH leaf) (fuel : Nat) (input tree : Region)
+    (num_cols batch_size dim nbatches nlastb : BitVec 64) (c b d R : Nat) (hc : num_cols.toNat = c)
+    (hbv : batch_size.toNat = b) (hd : dim.toNat = d) (hb : 1 ≤ b) (hprod : R * (c * d) < 2 ^ 64) (hcb : c + b < 2 ^ 62)
+    (hnb : nbatches.toNat = nbOf c b) (hnl : nlastb.toNat = nlastOf c b) (hf1 : c * d < fuel) (hf3 : 4 * (c + 1) < fuel)
+    (is' : List Nat) (hp : is'.Perm (List.range R)) :
+    inOrder (mtbLeafG LH fuel input num_cols batch_size dim nbatches nlastb) is' tree
+      = Loop.rangeM 0 R 1 tree (mtbLeafG LH fuel input num_cols batch_size dim nbatches nlastb)
+    ∧ ∃ t', Loop.rangeM 0 R 1 tree (mtbLeafG LH fuel input num_cols batch_size dim nbatches nlastb) = some t' :=
+  C12_generated_merkle_fill_any_order 1 (fun _ => 4) (mtbLeafG LH fuel input num_cols batch_size dim nbatches nlastb) _ _ R
+    (fun i _ t => mtbLeafG_fill LH fuel input num_cols batch_size dim nbatches nlastb i t)
+    (fun i hi => mtbLeafG_writer LH leaf hLH fuel input num_cols batch_size dim nbatches nlastb c b d R hc hbv hd hb hprod hcb
+      hnb hnl hf1 hf3 i hi) (fun _ => Nat.le_refl _) tree is' hp
+
+/-- leaf loop of `merkletree_avx512` (`for (i = 0; i < num_rows; i += 2)`: iteration `m` handles rows `2m`, `2m+1` through the
+    two-state hash, an odd last row through the one-state hash), generic in the two hashes: the pairs in any order.
+    No shape hypothesis. -/
+theorem C12_generated_merkle_pair_leaves_any_order (LH2 LH1 : Nat → Region → Region → BitVec 64 → Option Region)
+    (leaf1 : List Model.Wd → List Model.Wd) (leaf2 : List Model.Wd → Nat → List Model.Wd) (hLH1 : LeafHash LH1 leaf1)
+    (hLH2 : PairHash LH2 leaf2) (fuel : Nat) (input tree : Region) (num_cols num_rows dim : BitVec 64)
+    (hf : (num_cols * dim).toNat < fuel) (n : Nat) (is' : List Nat) (hp : is'.Perm (List.range ((n + 1) / 2))) :
+    inOrder (fun m => mt512LeafG LH2 LH1 fuel input num_cols num_rows dim (2 * m)) is' tree
+      = Loop.rangeM 0 n 2 tree (mt512LeafG LH2 LH1 fuel input num_cols num_rows dim)
+    ∧ ∃ t', Loop.rangeM 0 n 2 tree (mt512LeafG LH2 LH1 fuel input num_cols num_rows dim) = some t' := by
+  rw [rangeM_zero_two, ← rangeM_zero_one]
+  exact C12_generated_merkle_fill_any_order 2 (pairW num_rows)
+    (fun m => mt512LeafG LH2 LH1 fuel input num_cols num_rows dim (2 * m)) _ _ ((n + 1) / 2)
+    (fun m _ t => mt512LeafG_fill LH2 LH1 fuel input num_cols num_rows dim m t)
+    (fun m _ => mt512LeafG_writer LH2 LH1 fuel input num_cols num_rows dim leaf1 leaf2 hLH1 hLH2 hf m)
+    (pairW_le num_rows) tree is' hp
+
+/-- leaf loop of `merkletree_batch_avx512` for `num_rows = 2^(k+1)` rows (every iteration hashes two rows through the
+    two-state hash; both `buff0` halves are private to the iteration), generic in the two hashes: the pairs in any order.
+    Shape hypotheses as in the bridge (`mtb512_leaves`). -/
+theorem C12_generated_merkle_batch_pair_leaves_any_order (LH2 LH1 : Nat → Region → Region → BitVec 64 → Option Region)
+    (leaf2 : List Model.Wd → Nat → List Model.Wd) (hLH2 : PairHash LH2 leaf2) (fuel : Nat) (input tree : Region)
+    (num_cols num_rows batch_size dim nbatches nlastb : BitVec 64) (c b d k : Nat) (hR : num_rows.toNat = 2 ^ (k + 1))
+    (hc : num_cols.toNat = c) (hbv : batch_size.toNat = b) (hd : dim.toNat = d) (hb : 1 ≤ b)
+    (hprod : 2 ^ (k + 1) * (c * d) < 2 ^ 64) (h61 : c * d < 2 ^ 61) (hcb : c + b < 2 ^ 61)
+    (hnb : nbatches.toNat = nbOf c b) (hnl : nlastb.toNat = nlastOf c b) (hf1 : c * d < fuel) (hf3 : 4 * (c + 1) < fuel)
+    (is' : List Nat) (hp : is'.Perm (List.range (2 ^ k))) :
+    inOrder (fun m => mtb512LeafG LH2 LH1 fuel input num_cols num_rows batch_size dim nbatches nlastb (2 * m)) is' tree
+      = Loop.rangeM 0 (2 ^ (k + 1)) 2 tree (mtb512LeafG LH2 LH1 fuel input num_cols num_rows batch_size dim nbatches nlastb)
+    ∧ ∃ t', Loop.rangeM 0 (2 ^ (k + 1)) 2 tree
+        (mtb512LeafG LH2 LH1 fuel input num_cols num_rows batch_size dim nbatches nlastb) = some t' := by
+  have hN : (2 ^ (k + 1) + 1) / 2 = 2 ^ k := by
+    have h2p : (2 : Nat) ^ (k + 1) = 2 * 2 ^ k := by rw [Nat.pow_succ]; omega
+    omega
+  rw [rangeM_zero_two, hN, ← rangeM_zero_one]
+  exact C12_generated_merkle_fill_any_order 2 (fun _ => 8)
+    (fun m => mtb512LeafG LH2 LH1 fuel input num_cols num_rows batch_size dim nbatches nlastb (2 * m)) _ _ (2 ^ k)
+    (fun m hm t => mtb512LeafG_fill LH2 LH1 fuel input num_cols num_rows batch_size dim nbatches nlastb k hR m hm t)
+    (fun m hm => mtb512LeafG_writer LH2 fuel input num_cols batch_size dim nbatches nlastb leaf2 hLH2 c b d k hc hbv hd hb
+      hprod h61 hcb hnb hnl hf1 hf3 m hm)
+    (fun _ => Nat.le_refl _) tree is' hp
+
+/-- level loop, generic in the capacity hash: level of `p` nodes stored from word `ni`, `m ≤ p/2` parent nodes, offsets
+    below 2^60 (no wrap of the 64-bit index arithmetic): the nodes in any order give the generated loop's tree buffer -/
+theorem C12_generated_merkle_level_any_order (H : Region → Region → Region) (nodeF : List Model.Wd → List Model.Wd)
+    (hH : NodeHash H nodeF) (pending nextIndex : BitVec 64) (ni p m : Nat) (hni : nextIndex.toNat = ni)
+    (hpe : pending.toNat = p) (hm : 2 * m ≤ p) (hsmall : ni + 8 * p < 2 ^ 60) (tree : Region)
+    (is' : List Nat) (hp : is'.Perm (List.range m)) :
+    inOrder (mtNodeG H pending nextIndex) is' tree = Loop.rangeM 0 m 1 tree (mtNodeG H pending nextIndex)
+    ∧ ∃ t', Loop.rangeM 0 m 1 tree (mtNodeG H pending nextIndex) = some t' := by
+  refine inOrder_any_order id (fun i => (nodeIter H nodeF hH ni p i).run) _ m
+    (fun i hi t => node_some H pending nextIndex ni p m hni hpe hm hsmall i hi t)
+    (fun l hl t => any_order (nodeIter H nodeF hH ni p) l _ hl ?_ t) is' hp tree
+  intro i hi i' hi' hne
+  have hi := List.mem_range.1 ((hl.mem_iff).1 hi)
+  have hi' := List.mem_range.1 ((hl.mem_iff).1 hi')
+  refine (C12_merkle_level 0 ni p 1 m i i' (by omega) hi hi' hne).congr ?_ ?_ ?_ ?_
+  all_goals
+    rintro ⟨b, j⟩ ⟨hb, h1, h2⟩
+    exact ⟨hb, by omega, by omega⟩
+
+/-! #### the hypotheses on the hashes, discharged by the bridge -/
+
+theorem C12_linear_hash_seq_leaf : LeafHash Gen.LinearHashGen.Pos_linear_hash_seq (Model.linearHash permSeqList) := by
+  intro fuel out inp size hf
+  rw [lh_seq_generic]
+  exact lhGenG_spec _ permSeqList perm_seq_hP fuel out inp size hf
+
+theorem C12_linear_hash_avx_leaf : LeafHash Gen.LinearHashGen.Pos_linear_hash (Model.linearHash permAvxList) := by
+  intro fuel out inp size hf
+  rw [lh_avx_generic]
+  exact lhGenG_spec _ permAvxList perm_avx_hP fuel out inp size hf
+
+theorem C12_linear_hash_avx512_pair :
+    PairHash Gen.LinearHashGen.Pos_linear_hash_avx512 (Model.linearHash512 perm512List) := by
+  intro fuel out inp size hf
+  rw [lh512_generic]
+  exact lh512GenG_spec _ perm512List perm512_hP fuel out inp size hf
+
+/-! #### the six builders (NO hypothesis on the hashes) -/
+
+/-- `merkletree_seq`, leaf loop (poseidon_goldilocks.cpp:87) -/
+theorem C12_generated_merkletree_seq_leaves_any_order (fuel : Nat) (input tree : Region) (num_cols dim : BitVec 64)
+    (hf : (num_cols * dim).toNat < fuel) (R : Nat) (is' : List Nat) (hp : is'.Perm (List.range R)) :
+    inOrder (Pos_merkletree_seq_loop1 fuel input num_cols dim) is' tree
+      = Loop.rangeM 0 R 1 tree (Pos_merkletree_seq_loop1 fuel input num_cols dim)
+    ∧ ∃ t', Loop.rangeM 0 R 1 tree (Pos_merkletree_seq_loop1 fuel input num_cols dim) = some t' := by
+  have e : Pos_merkletree_seq_loop1 fuel input num_cols dim = mtLeafG Gen.LinearHashGen.Pos_linear_hash_seq fuel input num_cols dim := by
+    funext i st; rfl
+  rw [e]
+  exact C12_generated_merkle_leaves_any_order _ _ C12_linear_hash_seq_leaf fuel input tree num_cols dim hf R is' hp
+
+/-- `merkletree_avx`, leaf loop -/
+theorem C12_generated_merkletree_avx_leaves_any_order (fuel : Nat) (input tree : Region) (num_cols dim : BitVec 64)
+    (hf : (num_cols * dim).toNat < fuel) (R : Nat) (is' : List Nat) (hp : is'.Perm (List.range R)) :
+    inOrder (Pos_merkletree_avx_loop1 fuel input num_cols dim) is' tree
+      = Loop.rangeM 0 R 1 tree (Pos_merkletree_avx_loop1 fuel input num_cols dim)
+    ∧ ∃ t', Loop.rangeM 0 R 1 tree (Pos_merkletree_avx_loop1 fuel input num_cols dim) = some t' := by
+  have e : Pos_merkletree_avx_loop1 fuel input num_cols dim = mtLeafG Gen.LinearHashGen.Pos_linear_hash fuel input num_cols dim := by
+    funext i st; rfl
+  rw [e]
+  exact C12_generated_merkle_leaves_any_order _ _ C12_linear_hash_avx_leaf fuel input tree num_cols dim hf R is' hp
+
+/-- `merkletree_avx512`, leaf loop (step 2: the pairs of rows in any order) -/
+theorem C12_generated_merkletree_avx512_leaves_any_order (fuel : Nat) (input tree : Region) (num_cols num_rows dim : BitVec 64)
+    (hf : (num_cols * dim).toNat < fuel) (n : Nat) (is' : List Nat) (hp : is'.Perm (List.range ((n + 1) / 2))) :
+    inOrder (fun m => Pos_merkletree_avx512_loop1 fuel input num_cols num_rows dim (2 * m)) is' tree
+      = Loop.rangeM 0 n 2 tree (Pos_merkletree_avx512_loop1 fuel input num_cols num_rows dim)
+    ∧ ∃ t', Loop.rangeM 0 n 2 tree (Pos_merkletree_avx512_loop1 fuel input num_cols num_rows dim) = some t' := by
+  have e : Pos_merkletree_avx512_loop1 fuel input num_cols num_rows dim =
+      mt512LeafG Gen.LinearHashGen.Pos_linear_hash_avx512 Gen.LinearHashGen.Pos_linear_hash fuel input num_cols num_rows dim := by
+    funext i st; rfl
+  rw [e]
+  exact C12_generated_merkle_pair_leaves_any_order _ _ _ _ C12_linear_hash_avx_leaf C12_linear_hash_avx512_pair fuel input tree
+    num_cols num_rows dim hf n is' hp
+
+/-- `merkletree_batch_seq`, leaf loop -/
+theorem C12_generated_merkletree_batch_seq_leaves_any_order (fuel : Nat) (input tree : Region)
+    (num_cols batch_size dim nbatches nlastb : BitVec 64) (c b d R : Nat) (hc : num_cols.toNat = c)
+    (hbv : batch_size.toNat = b) (hd : dim.toNat = d) (hb : 1 ≤ b) (hprod : R * (c * d) < 2 ^ 64) (hcb : c + b < 2 ^ 62)
+    (hnb : nbatches.toNat = nbOf c b) (hnl : nlastb.toNat = nlastOf c b) (hf1 : c * d < fuel) (hf3 : 4 * (c + 1) < fuel)
+    (is' : List Nat) (hp : is'.Perm (List.range R)) :
+    inOrder (Pos_merkletree_batch_seq_loop2 fuel input num_cols batch_size dim nbatches nlastb) is' tree
+      = Loop.rangeM 0 R 1 tree (Pos_merkletree_batch_seq_loop2 fuel input num_cols batch_size dim nbatches nlastb)
+    ∧ ∃ t', Loop.rangeM 0 R 1 tree (Pos_merkletree_batch_seq_loop2 fuel input num_cols batch_size dim nbatches nlastb) = some t' := by
+  have e1 : Pos_merkletree_batch_seq_loop1 = mtbInnerG Gen.LinearHashGen.Pos_linear_hash_seq := by
+    funext fuel input nc bs dim nb nl i j st; rfl
+  have e : Pos_merkletree_batch_seq_loop2 fuel input num_cols batch_size dim nbatches nlastb =
+      mtbLeafG Gen.LinearHashGen.Pos_linear_hash_seq fuel input num_cols batch_size dim nbatches nlastb := by
+    funext i st; unfold Pos_merkletree_batch_seq_loop2 mtbLeafG; rw [e1]
+  rw [e]
+  exact C12_generated_merkle_batch_leaves_any_order _ _ C12_linear_hash_seq_leaf fuel input tree num_cols batch_size dim nbatches
+    nlastb c b d R hc hbv hd hb hprod hcb hnb hnl hf1 hf3 is' hp
+
+/-- `merkletree_batch_avx`, leaf loop -/
+theorem C12_generated_merkletree_batch_avx_leaves_any_order (fuel : Nat) (input tree : Region)
+    (num_cols batch_size dim nbatches nlastb : BitVec 64) (c b d R : Nat) (hc : num_cols.toNat = c)
+    (hbv : batch_size.toNat = b) (hd : dim.toNat = d) (hb : 1 ≤ b) (hprod : R * (c * d) < 2 ^ 64) (hcb : c + b < 2 ^ 62)
+    (hnb : nbatches.toNat = nbOf c b) (hnl : nlastb.toNat = nlastOf c b) (hf1 : c * d < fuel) (hf3 : 4 * (c + 1) < fuel)
+    (is' : List Nat) (hp : is'.Perm (List.range R)) :
+    inOrder (Pos_merkletree_batch_avx_loop2 fuel input num_cols batch_size dim nbatches nlastb) is' tree
+      = Loop.rangeM 0 R 1 tree (Pos_merkletree_batch_avx_loop2 fuel input num_cols batch_size dim nbatches nlastb)
+    ∧ ∃ t', Loop.rangeM 0 R 1 tree (Pos_merkletree_batch_avx_loop2 fuel input num_cols batch_size dim nbatches nlastb) = some t' := by
+  have e1 : Pos_merkletree_batch_avx_loop1 = mtbInnerG Gen.LinearHashGen.Pos_linear_hash := by
+    funext fuel input nc bs dim nb nl i j st; rfl
+  have e : Pos_merkletree_batch_avx_loop2 fuel input num_cols batch_size dim nbatches nlastb =
+      mtbLeafG Gen.LinearHashGen.Pos_linear_hash fuel input num_cols batch_size dim nbatches nlastb := by
+    funext i st; unfold Pos_merkletree_batch_avx_loop2 mtbLeafG; rw [e1]
+  rw [e]
+  exact C12_generated_merkle_batch_leaves_any_order _ _ C12_linear_hash_avx_leaf fuel input tree num_cols batch_size dim nbatches
+    nlastb c b d R hc hbv hd hb hprod hcb hnb hnl hf1 hf3 is' hp
+
+/-- `merkletree_batch_avx512`, leaf loop, `num_rows = 2^(k+1)` -/
+theorem C12_generated_merkletree_batch_avx512_leaves_any_order (fuel : Nat) (input tree : Region)
+    (num_cols num_rows batch_size dim nbatches nlastb : BitVec 64) (c b d k : Nat) (hR : num_rows.toNat = 2 ^ (k + 1))
+    (hc : num_cols.toNat = c) (hbv : batch_size.toNat = b) (hd : dim.toNat = d) (hb : 1 ≤ b)
+    (hprod : 2 ^ (k + 1) * (c * d) < 2 ^ 64) (h61 : c * d < 2 ^ 61) (hcb : c + b < 2 ^ 61)
+    (hnb : nbatches.toNat = nbOf c b) (hnl : nlastb.toNat = nlastOf c b) (hf1 : c * d < fuel) (hf3 : 4 * (c + 1) < fuel)
+    (is' : List Nat) (hp : is'.Perm (List.range (2 ^ k))) :
+    inOrder (fun m => Pos_merkletree_batch_avx512_loop3 fuel input num_cols num_rows batch_size dim nbatches nlastb (2 * m)) is' tree
+      = Loop.rangeM 0 (2 ^ (k + 1)) 2 tree
+          (Pos_merkletree_batch_avx512_loop3 fuel input num_cols num_rows batch_size dim nbatches nlastb)
+    ∧ ∃ t', Loop.rangeM 0 (2 ^ (k + 1)) 2 tree
+        (Pos_merkletree_batch_avx512_loop3 fuel input num_cols num_rows batch_size dim nbatches nlastb) = some t' := by
+  have e1 : Pos_merkletree_batch_avx512_loop1 = mtbInnerG Gen.LinearHashGen.Pos_linear_hash := by
+    funext fuel input nc bs dim nb nl i j st; rfl
+  have e2 : Pos_merkletree_batch_avx512_loop2 = mtb512InnerG Gen.LinearHashGen.Pos_linear_hash_avx512 := by
+    funext fuel input nc bs dim nb nl i j st; rfl
+  have e : Pos_merkletree_batch_avx512_loop3 fuel input num_cols num_rows batch_size dim nbatches nlastb =
+      mtb512LeafG Gen.LinearHashGen.Pos_linear_hash_avx512 Gen.LinearHashGen.Pos_linear_hash fuel input num_cols num_rows
+        batch_size dim nbatches nlastb := by
+    funext i st; unfold Pos_merkletree_batch_avx512_loop3 mtb512LeafG; rw [e1, e2]
+  rw [e]
+  exact C12_generated_merkle_batch_pair_leaves_any_order _ _ _ C12_linear_hash_avx512_pair fuel input tree num_cols num_rows
+    batch_size dim nbatches nlastb c b d k hR hc hbv hd hb hprod h61 hcb hnb hnl hf1 hf3 is' hp
+
+/-- the level loops of the six builders: `merkletree_seq`, `merkletree_batch_seq` call the scalar `hash_seq`; `merkletree_avx`,
+    `merkletree_avx512`, `merkletree_batch_avx`, `merkletree_batch_avx512` the AVX2 `hash` — six lifted bodies, each an instance
+    of `mtNodeG` by unfolding -/
+theorem C12_generated_merkletree_level_loops_any_order (pending nextIndex : BitVec 64) (ni p m : Nat)
+    (hni : nextIndex.toNat = ni) (hpe : pending.toNat = p) (hm : 2 * m ≤ p) (hsmall : ni + 8 * p < 2 ^ 60) (tree : Region)
+    (is' : List Nat) (hp : is'.Perm (List.range m)) :
+    ∀ body ∈ [Pos_merkletree_seq_loop2 pending nextIndex, Pos_merkletree_avx_loop2 pending nextIndex,
+        Pos_merkletree_avx512_loop2 pending nextIndex, Pos_merkletree_batch_seq_loop3 pending nextIndex,
+        Pos_merkletree_batch_avx_loop3 pending nextIndex, Pos_merkletree_batch_avx512_loop4 pending nextIndex],
+      inOrder body is' tree = Loop.rangeM 0 m 1 tree body ∧ ∃ t', Loop.rangeM 0 m 1 tree body = some t' := by
+  have hs := C12_generated_merkle_level_any_order _ nodeSeqList hash_seq_node pending nextIndex ni p m hni hpe hm hsmall tree is' hp
+  have ha := C12_generated_merkle_level_any_order _ nodeAvxList hash_avx_node pending nextIndex ni p m hni hpe hm hsmall tree is' hp
+  have e1 : Pos_merkletree_seq_loop2 pending nextIndex = mtNodeG Gen.PosScalar.Pos_hash_seq pending nextIndex := by
+    funext i st; rfl
+  have e2 : Pos_merkletree_avx_loop2 pending nextIndex = mtNodeG Gen.PosAvx2.Pos_hash pending nextIndex := by
+    funext i st; rfl
+  have e3 : Pos_merkletree_avx512_loop2 pending nextIndex = mtNodeG Gen.PosAvx2.Pos_hash pending nextIndex := by
+    funext i st; rfl
+  have e4 : Pos_merkletree_batch_seq_loop3 pending nextIndex = mtNodeG Gen.PosScalar.Pos_hash_seq pending nextIndex := by
+    funext i st; rfl
+  have e5 : Pos_merkletree_batch_avx_loop3 pending nextIndex = mtNodeG Gen.PosAvx2.Pos_hash pending nextIndex := by
+    funext i st; rfl
+  have e6 : Pos_merkletree_batch_avx512_loop4 pending nextIndex = mtNodeG Gen.PosAvx2.Pos_hash pending nextIndex := by
+    funext i st; rfl
+  intro body hb
+  simp only [List.mem_cons, List.not_mem_nil, or_false] at hb
+  rcases hb with rfl | rfl | rfl | rfl | rfl | rfl
+  · rw [e1]; exact hs
+  · rw [e2]; exact ha
+  · rw [e3]; exact ha
+  · rw [e4]; exact hs
+  · rw [e5]; exact ha
+  · rw [e6]; exact ha
+
+-- not vacuous: an explicit non-sequential order of the four leaf iterations of the translated `merkletree_seq`, from any tree
+-- buffer, any input, any shape; and of the two pair iterations of the translated `merkletree_avx512` on four rows
+example (fuel : Nat) (input tree : Region) (num_cols dim : BitVec 64) (hf : (num_cols * dim).toNat < fuel) :
+    inOrder (Pos_merkletree_seq_loop1 fuel input num_cols dim) [2, 0, 3, 1] tree
+      = Loop.rangeM 0 4 1 tree (Pos_merkletree_seq_loop1 fuel input num_cols dim) :=
+  (C12_generated_merkletree_seq_leaves_any_order fuel input tree num_cols dim hf 4 [2, 0, 3, 1] (by decide)).1
+
+example (fuel : Nat) (input tree : Region) (num_cols dim : BitVec 64) (hf : (num_cols * dim).toNat < fuel) :
+    inOrder (fun m => Pos_merkletree_avx512_loop1 fuel input num_cols 4#64 dim (2 * m)) [1, 0] tree
+      = Loop.rangeM 0 4 2 tree (Pos_merkletree_avx512_loop1 fuel input num_cols 4#64 dim) :=
+  (C12_generated_merkletree_avx512_leaves_any_order fuel input tree num_cols 4#64 dim hf 4 [1, 0] (by decide)).1
+
+end GenMerkle
+
+end Generated
 
 end GoldilocksVerif.C12
